@@ -1,27 +1,8 @@
 (* Facts about the expander model (Expand/Expand.v). *)
 From Coq Require Import List String Ascii Bool Arith Lia.
-From Spec Require Import Base.Json Base.Url Codec.Types Codec.Codec Expand.Expand.
+From Spec Require Import Base.Json Base.JsonFacts Base.Url Codec.Types Codec.Codec Expand.Expand.
 Import ListNotations.
 Local Open Scope string_scope.
-
-(* ---------- induction on the size of JSON trees ---------- *)
-Fixpoint jsize (j : json) : nat :=
-  match j with
-  | JArr l => S ((fix go (l : list json) : nat := match l with [] => 0 | x :: r => jsize x + go r end) l)
-  | JObj m => S ((fix go (m : list (string * json)) : nat := match m with [] => 0 | kv :: r => jsize (snd kv) + go r end) m)
-  | _ => 1
-  end.
-
-Lemma jsize_elem l x : In x l -> jsize x < jsize (JArr l).
-Proof.
-  cbn [jsize]. induction l as [|y r IH]; intros H; [destruct H|].
-  destruct H as [->|H]; [lia|]. specialize (IH H). lia.
-Qed.
-Lemma jsize_value m k x : In (k, x) m -> jsize x < jsize (JObj m).
-Proof.
-  cbn [jsize]. induction m as [|[k' y] r IH]; intros H; [destruct H|].
-  destruct H as [E|H]; [inversion E; subst; cbn [snd]; lia|]. specialize (IH H). cbn [snd]. lia.
-Qed.
 
 (* ---------- where OutOfFuel can come from: the generic traversals only pass it on ---------- *)
 Section FoldOOF.
@@ -118,7 +99,7 @@ Qed.
 Lemma resolve_finish_not_oof ref kind toks s' d : resolve_finish E ref kind toks s' d <> OOF.
 Proof.
   unfold resolve_finish. destruct (if String.eqb ref "" then Some d else ptr_get toks d) as [res|]; [|discriminate].
-  destruct res; try discriminate. destruct (norm E (JObj m) (TNamed kind)); discriminate.
+  destruct res; try discriminate. destruct (norm E false (JObj m) (TNamed kind)); discriminate.
 Qed.
 
 Lemma resolve_not_oof s rroot ref base kind : resolve E docs cwd live s rroot ref base kind <> OOF.
@@ -369,7 +350,7 @@ Proof.
   intros Hs'. unfold resolve_finish.
   destruct (if String.eqb ref "" then Some d else ptr_get toks d) as [res|]; [|apply set_dfail_inv; exact Hs'].
   destruct res; try (apply set_dfail_inv; exact Hs').
-  destruct (norm E (JObj m) (TNamed kind)); cbn; try exact I; apply set_dfail_inv; exact Hs'.
+  destruct (norm E false (JObj m) (TNamed kind)); cbn; try exact I; apply set_dfail_inv; exact Hs'.
 Qed.
 
 Lemma resolve_inv s rroot ref base kind : P s -> pres_all (resolve E docs cwd live s rroot ref base kind).
@@ -576,10 +557,10 @@ Variable live : option (string * json).
 Theorem resolve_finish_done ref kind toks s' data s'' v :
   resolve_finish E ref kind toks s' data = Done (s'', v) ->
   exists res m, res = JObj m /\ (if String.eqb ref "" then Some data else ptr_get toks data) = Some res
-                /\ norm E res (TNamed kind) = ROk v.
+                /\ norm E false res (TNamed kind) = ROk v.
 Proof.
   unfold resolve_finish. destruct (if String.eqb ref "" then Some data else ptr_get toks data) as [res|]; [|discriminate].
-  destruct res; try discriminate. destruct (norm E (JObj m) (TNamed kind)) eqn:En; try discriminate.
+  destruct res; try discriminate. destruct (norm E false (JObj m) (TNamed kind)) eqn:En; try discriminate.
   intros H. inversion H; subst. exists (JObj m), m. repeat split; assumption.
 Qed.
 
